@@ -1,6 +1,11 @@
 //! vh -- workload + monitor binary of the zerokit runtime-verification harness.
 //! usage: vh <property|subcommand> --tier quick|thorough --seed N --out <result.json> [extra args]
 mod circomref;
+mod codec;
+mod ffiu;
+mod noderef;
+mod refhash;
+mod rlnx;
 mod common;
 mod props;
 
